@@ -20,6 +20,14 @@ CLAIMED = {
         text="Lean 4 proofs over a model of the path-template tokenizer/segment builder and of url's push + percent-decode: an accepted template segment is the concatenation of its parts, literals are brace-free, the emitted format! template has exactly one {} per argument and no other brace, percent-decoding an encoded segment returns the original bytes for ALL byte strings and never contains a separator, path-level/operation-level parameter merge lets the operation win. Tied to the code by exhaustive templates through ParsedPath::parse, exhaustive short strings through the real url crate, and by judging the client method emitted by the current sources (method, pushes vs template, query/header presence, body encoder, validate-before-send) on random operations.",
         note="Trusted: Lean kernel; Sem/Url.lean as a model of url 2.5/percent-encoding (validated differentially); reqwest/serde_urlencoded wire encoding is not modelled (which builder call is emitted is). Five defect classes recorded as known findings (dot segments, control chars, empty first segment, OPTIONS/TRACE panic, parameter field clash).",
         ref="§6 C03"),
+    "C05": dict(
+        text="Lean 4 proofs that the routing-function table is injective on the eight OpenAPI methods (so the `_ => get` arm is reached only by GET), that the status sent for every exact token equals its code over the regenerated tables, and (shared with C03) that the axum pattern of a segment is the template with parameters renamed; the router table, handler signatures, error mapping and IntoResponse tables emitted by the current sources in server-mod are parsed with syn, compared with the model (routes per path/method, status+encoding per variant from the C04 variant model) and judged against the spec on every generated multi-operation spec.",
+        note="Trusted: Lean kernel; axum/matchit routing semantics as stated in Model/Server.lean (404/405 for undeclared routes follow from it, not from a proof about axum); extractor internals not modelled. Known findings: TRACE registered twice (oas3 crate), every payload sent as JSON, 3XX answered with 500.",
+        ref="§6 C05"),
+    "C06": dict(
+        text="Composition of the C04 client-chain model and the C05 server-table model over ONE responses object: Lean counter-example theorems exhibit exactly the configurations where server status/encoding and client dispatch disagree (default sent as 200, range sent as its first code, same-status variants, JSON-encoded text); the check runs the generator twice (client-mod, server-mod), feeds every server variant's (status, encoding) into the client's emitted chain and compares the wire shapes of all types between the two runs.",
+        note="Trusted: Lean kernel; the C03/C04/C05 models; HTTP framing, serde payload encoding and axum extractors are not modelled. The positive interop theorem is proved for exact-code variants via C04's dispatch theorem; the other variant kinds are characterised by known-finding classes.",
+        ref="§6 C06"),
 }
 PENDING = ["C01","C02","C03","C04","C05","C06","C07","C08","C10","C11","C12","C13","C14","C15","C16","C17","C18","C19","C20"]
 
